@@ -58,6 +58,14 @@ func (ac *acceptCtx) authFact(f guard.Fact) (string, bool) {
 			return "err==nil of " + shortName(guard.CalleeName(&call.Call)), true
 		}
 	}
+	// v, ok := helper(…); ok — the trailing bool of a verdict function
+	if ex, isEx := f.Cond.(*ssa.Extract); isEx && f.True {
+		if call, isCall := ex.Tuple.(*ssa.Call); isCall {
+			if callee := call.Call.StaticCallee(); callee != nil && ac.authBool[callee] && ex.Index == callee.Signature.Results().Len()-1 {
+				return shortName(guard.CalleeName(&call.Call)) + " ok == true", true
+			}
+		}
+	}
 	if call, val, ok := guard.BoolCallFact(f); ok && val {
 		n := guard.CalleeName(&call.Call)
 		if extAuthBool[n] {
@@ -152,7 +160,59 @@ func (ac *acceptCtx) returnAuthenticated(ret *ssa.Return) (string, bool) {
 
 // computeAuth finds, by fixpoint, the product functions whose success implies
 // that an authentication check passed.
+// installParamLen makes the bounds prover aware of constant buffer lengths
+// handed to unexported helpers: every static call site in the module passes a
+// value whose length folds to the same constant.
+func installParamLen(p *core.Program) {
+	memo := map[*ssa.Parameter]int64{}
+	busy := map[*ssa.Parameter]bool{}
+	bounds.ParamLen = func(prm *ssa.Parameter) (int64, bool) {
+		if k, ok := memo[prm]; ok {
+			return k, k >= 0
+		}
+		fn := prm.Parent()
+		if fn == nil || busy[prm] || fn.Object() == nil || fn.Object().Exported() || core.FuncClass(fn) != core.Product {
+			return 0, false
+		}
+		if _, isSl := prm.Type().Underlying().(*types.Slice); !isSl {
+			return 0, false
+		}
+		busy[prm] = true
+		defer func() { busy[prm] = false }()
+		idx := -1
+		for i, q := range fn.Params {
+			if q == prm {
+				idx = i
+			}
+		}
+		val, n := int64(-1), 0
+		consistent := true
+		for _, site := range p.Callers(fn) {
+			args := site.Common().Args
+			if site.Common().StaticCallee() != fn || idx < 0 || idx >= len(args) {
+				consistent = false
+				continue
+			}
+			cx := bounds.NewCtx(site.Parent())
+			l := cx.LenOf(args[idx])
+			k, isConst := l.Const()
+			if !isConst || (n > 0 && k != val) {
+				consistent = false
+			}
+			val = k
+			n++
+		}
+		if !consistent || n == 0 {
+			memo[prm] = -1
+			return 0, false
+		}
+		memo[prm] = val
+		return val, true
+	}
+}
+
 func newAcceptCtx(c *Ctx) *acceptCtx {
+	installParamLen(c.P)
 	ac := &acceptCtx{c: c, auth: map[*ssa.Function]bool{}, authBool: map[*ssa.Function]bool{}}
 	fns := c.P.SortedFuncs(core.Product)
 	for changed := true; changed; {
@@ -180,11 +240,17 @@ func newAcceptCtx(c *Ctx) *acceptCtx {
 					changed = true
 				}
 			}
-			if b, isB := last.Underlying().(*types.Basic); isB && b.Kind() == types.Bool && res.Len() == 1 && !ac.authBool[f] {
-				// bool verdict functions: every `return true` (or non-constant-false return) must be authenticated
+			if b, isB := last.Underlying().(*types.Basic); isB && b.Kind() == types.Bool && res.Len() >= 1 && !ac.authBool[f] {
+				// bool verdict functions ((…, ok bool) included): every `return …, true` (or
+				// non-constant-false return) must be authenticated
 				ok, n := true, 0
+				li := res.Len() - 1
 				for _, r := range guard.Returns(f) {
-					if v, isC := guard.ConstBool(r.Results[0]); isC && !v {
+					if len(r.Results) <= li {
+						ok = false
+						continue
+					}
+					if v, isC := guard.ConstBool(r.Results[li]); isC && !v {
 						continue
 					}
 					n++
@@ -195,14 +261,14 @@ func newAcceptCtx(c *Ctx) *acceptCtx {
 						}
 					}
 					// return of an authenticating boolean call
-					if call, _ := guard.CallOf(r.Results[0]); call != nil {
+					if call, _ := guard.CallOf(r.Results[li]); call != nil {
 						nm := guard.CalleeName(&call.Call)
 						if extAuthBool[nm] || (call.Call.StaticCallee() != nil && ac.authBool[call.Call.StaticCallee()]) {
 							good = true
 						}
 					}
 					// return (accumulated difference == 0)
-					if cmp, isCmp := r.Results[0].(*ssa.BinOp); isCmp && cmp.Op == token.EQL {
+					if cmp, isCmp := r.Results[li].(*ssa.BinOp); isCmp && cmp.Op == token.EQL {
 						if isXorAccumulator(cmp.X) || isXorAccumulator(cmp.Y) {
 							good = true
 						}
